@@ -199,6 +199,73 @@ def c18_dpa_with_output_pending(policy):
         r.close()
 
 
+CFG_T = {"node": {"idle": 30, "dwa": 4, "cer": 4, "cea": 4, "wakeup": 1, "retx": 4},
+         "peers": [peer_cfg("p1")], "apps": [app_cfg("a1", 4, peers=["p1"], kind="threading", max_threads=1, handler="answer")]}
+
+
+def probe_acts(r, host="p1.r1", n_req=3, delay=0, first_c=None):
+    """the reconnect-and-serve probe of C14: every open connection is closed, the node is left alone, then a peer
+    connects, exchanges capabilities and sends n_req requests (each alone, the next after the previous was served)"""
+    acts = []
+    for c, vc in sorted(r.vcs.items()):
+        if not vc.closed and not vc.sock.remote_closed and not vc.sock.connecting:
+            acts.append({"a": "peer_close", "c": c})
+    acts += [{"a": "tick"}] * 9
+    return acts
+
+
+def run_probe(r, host="p1.r1", n_req=3, delay=0, app_id=4, realm="r1"):
+    for a in probe_acts(r):
+        r.do(a)
+    st = r.do({"a": "connect"})
+    c = next((e["c"] for e in st["out"] if e["ev"] == "accept"), 0)
+    if not c or c not in r.vcs:
+        r.do({"a": "tick", "probe": "end"})
+        return
+    r.do({"a": "feed", "c": c, "ms": [nt.M("CE", True, 1, 1, oh=host, auth=[app_id])], "probe": "cer"})
+    for i in range(n_req):
+        r.do({"a": "feed", "c": c, "ms": [nt.M("APP", True, 500 + i, 600 + i, app=app_id, oh=host, realm=realm)], "probe": "req"})
+        for _ in range(delay):
+            r.do({"a": "tick"})
+    r.do({"a": "tick"})
+    r.do({"a": "tick", "probe": "end"})
+
+
+def c14_peer_lost_while_request_in_progress(policy):
+    """a request is processed by a threading application while the peer closes the connection: the close is injected
+    at every scheduling point of reader / writer / application threads / I/O loop; then the probe"""
+    from .world import role_policy
+    r = nt.Runner(CFG_T, seed=1)
+    w = r.w
+    try:
+        r.do({"a": "start"})
+        st = r.do({"a": "connect"})
+        c = st["out"][0]["c"]
+        r.do({"a": "feed", "c": c, "ms": [nt.M("CE", True, 1, 1, oh="p1.r1", auth=[4])]})
+        vc = r.vcs[c]
+        req = nt.M("APP", True, 7, 8, app=4, oh="p1.r1", realm="r1")
+        act = {"a": "feed", "c": c, "ms": [req], "also": {"a": "peer_close", "c": c}}
+        r._mark = len(w.s.obs)
+        w.s.emit("fed", c=c, m=None)
+        vc.sock.feed(nt.concrete(req))
+
+        def closer():
+            w.s.emit("peer_close", c=c)
+            vc.sock.remote_close()
+        w.s.fine = True
+        w.s.policy = policy
+        w.spawn(closer, name="closer")
+        w.s.run()
+        w.s.fine = False
+        w.s.policy = role_policy
+        w.s.run()
+        r.steps.append({"act": act, "out": r._collect(), "snap": w.snap()})
+        run_probe(r, n_req=3)
+        return {"steps": r.steps, "exits": [(n, e) for n, e, _ in w.s.exits], "params": nt.model_params(r.full_cfg, max_conn=6)}
+    finally:
+        r.close()
+
+
 def explore_scenario(fn, max_preempt, max_runs=4000, whole=False):
     """-> list of (trace, schedule) for every schedule within the bound (distinct observation sequences only;
     of the last step, or of the whole trace)"""
